@@ -127,7 +127,9 @@ impl Monitor for OnchainMonitor {
 							if let Some((prev, ptx)) = self.feerates.get(&(*node, ins.clone())) {
 								if *ptx != txid {
 									v.rep.count("onchain_u1f_replacements_checked");
-									if rate * 200 < *prev * 199 {
+									// (a signature one byte longer adds a weight unit: on the smallest claims, some 200 weight
+									// units, that alone moves the rate by half a percent at an unchanged fee; two percent is no jitter)
+									if rate * 100 < *prev * 98 {
 										let prop = if w.close.as_ref().map(|c| c.revoked).unwrap_or(false) { "C06" } else { "C07" };
 										v.violation(prop, "U1f-fee-monotone", "a claim was re-issued with a lower feerate than before", format!("node{}: {} msat/wu after {} msat/wu (tx {} after {})", node, rate, prev, txid, ptx));
 									}
